@@ -97,8 +97,11 @@ impl LocalSpan {
     {
         #[cfg(feature = "enable")]
         if let Some(LocalSpanInner { stack, span_handle }) = &self.inner {
+            // Evaluate the closure before borrowing the stack, so that it may use the
+            // tracing API itself (e.g. call a `#[trace]` function).
+            let properties = properties();
             let span_stack = &mut *stack.borrow_mut();
-            span_stack.with_properties(span_handle, properties);
+            span_stack.with_properties(span_handle, move || properties);
         }
 
         self
@@ -150,8 +153,13 @@ impl LocalSpan {
         {
             LOCAL_SPAN_STACK
                 .try_with(|s| {
-                    let span_stack = &mut s.borrow_mut();
-                    span_stack.add_properties(properties);
+                    // Evaluate the closure outside of the borrow, so that it may use the
+                    // tracing API itself; it is still only evaluated when recording.
+                    let is_sampled = s.borrow_mut().is_sampled();
+                    if is_sampled {
+                        let properties = properties();
+                        s.borrow_mut().add_properties(move || properties);
+                    }
                     Some(())
                 })
                 .ok();
